@@ -230,6 +230,10 @@ def phases(g="g", r="r", l=None, basis="ground-rydberg", eom=True):
             ("enable_eom", g, 2.0, 0.0, 0.0, False),
             ("eom_pulse", g, 52, 0.5, 1.0, "min-delay", False),
             ("modify_eom", g, 3.0, -1.0, -20.0, True),  # drift-corrected change of setpoint (shift of the reference)
+            # drift-corrected pulse with another phase: the phase-jump wait before it is rounded to the clock / minimum duration, and the
+            # correction counts up to where the pulse really starts (off-detuning -2.5 rad/us after the modify above)
+            ("eom_pulse", g, 50, PI2, 0.0, "min-delay", True),
+            ("delay", 20, g),
             ("disable_eom", g, False),
         ]
     return A
